@@ -302,7 +302,8 @@ def check_call(case, rec):
         _call(srf, seed=4, store="raw", post_process=False, _tags=tags)
         sn.verify("SRF.__call__(post_process=False)", kind="stored_field_modified")
     elif entry == "condsrf":
-        model = gs.Gaussian(dim=dim, var=1.2, len_scale=1.5)
+        # with and without a nugget (the scaling of the random part has a branch of its own for nugget > 0)
+        model = gs.Gaussian(dim=dim, var=1.2, len_scale=1.5, nugget=[0.0, 0.3, 0.0, 0.05][(case["flag"] >> 1) % 4])
         cpos = A("cond_pos", rs.uniform(-3, 3, (dim, 4)))
         cval = A("cond_val", _positive_field(rs, 4) + 3.0)
         if case["flag"] & 1:
@@ -327,6 +328,10 @@ def check_call(case, rec):
         sn.verify(f"second CondSRF.__call__ with store={store2!r}", kind="stored_field_modified")
         _call(cs, pos, seed=3, _tags=tags)
         sn.verify("third CondSRF.__call__ (same pos passed again)", kind="stored_field_modified")
+        # the public scaling helper on an array of the caller
+        kv = A("own_krige_var", np.abs(rs.standard_normal(n)) * 0.7)
+        _call(cs.get_scaling, kv, (n,), _tags=tags)
+        sn.verify("CondSRF.get_scaling(krige_var, shape)")
     elif entry == "field_call":
         fld = gs.field.Field(dim=dim, mean=mean, trend=trend, normalizer=norm)
         pos = A("pos", rs.uniform(-3, 3, (dim, n)))
